@@ -210,6 +210,11 @@ def call_ext(I: Interp, name: str, args, kwargs, fr: Frame, node=None):
                     return PSpace("dict", items={})
             raise Refuse("spaces.Dict of a computed mapping")
         raise Refuse(f"gymnasium space {short}")
+    if name in ("urllib.parse.urlparse",):
+        st.log.append("urllib.parse.urlparse(text): an object whose hostname/port are uninterpreted functions of the text; None text has neither (ValueError for malformed ports not modelled)")
+        src = I.to_sv(args[0])
+        r = st.new_ref(0)
+        return SV(smt.mk_ref(r), T.EXT("ParseResult"), ("url", src.t))
     if short == "deepcopy" and args and isinstance(args[0], SV) and T.strip_opt(args[0].ty).k in ("dict", "list"):
         st.log.append("copy.deepcopy(container): a newly allocated container; its contents are left unconstrained (over-approximation)")
         return fresh_container(I, T.strip_opt(args[0].ty))
